@@ -319,6 +319,48 @@ def run_verus(woven_dir, tier, log_dir):
     return vr
 
 
+# Bounded stand-ins (labelled bounded, never counted as proved): they execute REAL functions whose contracts the
+# proof only assumes, on a stated finite domain, against an independent oracle.
+STANDINS = {
+    'C03': [{'name': 'bounded_paths', 'bin': 'bounded_paths', 'extract': True,
+             'assumed_contract': 'validate_file_path / convert_file_path (external_body): accepted => dir.join(convert(name)) never leaves dir',
+             'bound': '10 directory spellings x 5 leading-separator prefixes x names of 1..4 segments over an 8-element alphabet x 3 separator modes (702000 cases)'}],
+    'C10': [{'name': 'bounded_to_string', 'bin': 'bounded_to_string', 'extract': False,
+             'assumed_contract': 'Convert::to_string (external_body): Ok((s,i)) <=> i is the first NUL at/after start and s is the UTF-8 decoding of the bytes in between; no panic for start <= len',
+             'bound': 'all byte strings of length 0..6 over {00,61,C3,A9,FF} x all start offsets (131836 cases)'}],
+}
+
+
+def run_standins(pid):
+    """-> (list of evidence dicts, list of (name, counterexample text))"""
+    res, cex = [], []
+    if REPO != '/repo':
+        return [{'name': x['name'], 'skipped': 'VERIF_REPO override (stand-ins build against /repo)'} for x in STANDINS.get(pid, [])], []
+    rdir = os.path.join(VERIF, 'replay')
+    env = dict(os.environ, CARGO_NET_OFFLINE='true')
+    for x in STANDINS.get(pid, []):
+        t0 = time.time()
+        if x['extract']:
+            e = subprocess.run([sys.executable, os.path.join(HERE, 'extract.py')], stdout=subprocess.PIPE, stderr=subprocess.STDOUT, text=True)
+            if e.returncode != 0:
+                res.append({'name': x['name'], 'error': e.stdout.strip()[:300]})
+                continue
+        p = subprocess.run(['cargo', 'run', '--offline', '-q', '--release', '--bin', x['bin']], cwd=rdir, env=env,
+                           stdout=subprocess.PIPE, stderr=subprocess.STDOUT, text=True)
+        out = p.stdout.strip().split('\n')
+        d = {'name': x['name'], 'label': 'BOUNDED (not a proof)', 'assumed_contract': x['assumed_contract'], 'bound': x['bound'],
+             'result': out[-1][:300] if out else '', 'wall_s': round(time.time() - t0, 2), 'exit': p.returncode}
+        m = re.search(r'cases=(\d+)', out[-1] if out else '')
+        if m:
+            d['cases'] = int(m.group(1))
+        res.append(d)
+        if p.returncode == 1 and any(l.startswith('COUNTEREXAMPLE') for l in out):
+            cex.append((x, '\n'.join(out[-8:])))
+        elif p.returncode != 0:
+            d['error'] = 'stand-in did not run (exit %d): %s' % (p.returncode, ' | '.join(out[-3:])[:300])
+    return res, cex
+
+
 def canary_pass(scratch, uni0):
     """Vacuity guard (thorough tier): weave a second copy with `assert(false)` at the start of every function
     under contract and of every loop that carries an invariant.  Each of these assertions MUST be reported as
@@ -371,7 +413,8 @@ def analyse(info, uni, vr):
     vres = out.get('verification-results', {})
     res['fn_results'] = dict(vr.get('fn_results') or _breakdown(out))
     errors = [d for d in vr['diags'] if d['level'] == 'error' and not d['message'].startswith('aborting due to')]
-    if vres.get('encountered-vir-error') or 'verified' not in vres:
+    rustc_err = any(d.get('code') for d in errors) or (errors and vres.get('errors', 0) == 0 and not vr.get('phase2'))
+    if vres.get('encountered-vir-error') or 'verified' not in vres or rustc_err:
         res['compile_error'] = True
         for d in errors:
             res['inconclusive'].append('verus/rustc rejected the woven crate: %s %s' % (
@@ -434,16 +477,36 @@ def decide(pid, uni, ana, known):
     return obl, new, known_hit, inconclusive, host_results
 
 
-def write_replay(pid, oid, o, descs, vr):
+WITNESS_PROPS = ('C01', 'C02', 'C04', 'C07', 'C08', 'C15', 'C16')
+_witness_cache = {}
+
+
+def find_witness(pid, tier):
+    """bounded scenario sweep against the REAL Worker (replay crate); returns the first witness line for pid or None"""
+    key = tier
+    if key not in _witness_cache:
+        args = ['cargo', 'run', '--offline', '-q', '--release', '--bin', 'scenarios', '--', 'all'] + (['--quick'] if tier == 'quick' else [])
+        p = subprocess.run(args, cwd=os.path.join(VERIF, 'replay'), env=dict(os.environ, CARGO_NET_OFFLINE='true'),
+                           stdout=subprocess.PIPE, stderr=subprocess.DEVNULL, text=True)
+        _witness_cache[key] = [l for l in p.stdout.split('\n') if l.startswith('WITNESS')]
+    for l in _witness_cache[key]:
+        if l.startswith('WITNESS property=%s ' % pid):
+            return l.split('first: ', 1)[-1]
+    return None
+
+
+def write_replay(pid, oid, o, descs, vr, witness=None):
     os.makedirs(os.path.join(VERIF, 'replays'), exist_ok=True)
     path = os.path.join(VERIF, 'replays', '%s-%s.json' % (pid, re.sub(r'[^\w.\-]', '_', oid)))
     with open(path, 'w') as f:
         json.dump({
             'property': pid, 'failed_obligation': oid, 'obligation_clause': o['text'], 'function': o['fn'], 'file': 'src/' + o['file'],
             'verifier': 'verus (z3)', 'verifier_cmd': vr['cmd'],
-            'counterexample': None,
-            'note': 'Verus reports no model; the obligation was discharged on the unchanged tree and fails on this tree. '
-                    'no-failing-input-found',
+            'counterexample': witness,
+            'note': ('Verus reports no model; the witness finder (bounded scenario sweep against the real Worker, replay/src/bin/scenarios.rs) '
+                     'found the concrete failing run above.') if witness else
+                    ('Verus reports no model; the obligation was discharged on the unchanged tree and fails on this tree. '
+                     'no-failing-input-found'),
             'verifier_output': [{'message': d['message'], 'primary': d.get('primary'), 'clause': d.get('clause'),
                                  'rendered': d.get('rendered')} for d in descs],
         }, f, indent=1)
@@ -515,6 +578,31 @@ def main():
             uni = Universe(info)
             vr = run_verus(woven, tier, scratch)
             ana = analyse(info, uni, vr)
+        # degraded mode: a changed function no longer compiles with its in-body proof hints (they mention locals that
+        # are gone).  Re-weave without the hints of exactly those functions; obligations of such a function that then
+        # fail are NOT reported on the verifier's word alone -- only if the witness finder shows a concrete failing run.
+        degraded = set()
+        if ana['compile_error']:
+            for d in vr['diags']:
+                if d.get('level') != 'error':
+                    continue
+                for sp in d.get('spans', []):
+                    loc = locate(info, os.path.basename(sp['file_name']), sp['line_start'], sp.get('column_start'))
+                    if loc and loc['kind'] == 'ins' and loc['block']['directive'] in weave.HINT_DIRECTIVES:
+                        degraded.add((loc['file'], split_args(loc['block']['args'])[0]))
+            if degraded:
+                extra = {}
+                for (fname, path), blk in auto_items.items():
+                    extra.setdefault(fname, []).append(blk)
+                try:
+                    info = weave.weave_all(os.path.join(REPO, 'src'), os.path.join(VERIF, 'contracts'), os.path.join(VERIF, 'spec'), woven,
+                                           extra_blocks=extra, skip_hints_for=degraded)
+                    uni = Universe(info)
+                    vr = run_verus(woven, tier, scratch)
+                    ana = analyse(info, uni, vr)
+                except AnchorError as ex:
+                    print('INCONCLUSIVE: anchor lost: %s' % ex)
+                    sys.exit(2)
         trusted, counts = scan_trusted(woven)
         known = load_known_findings()
         canary = None
@@ -545,18 +633,64 @@ def main():
                 continue
             for oid, (k, descs) in sorted(known_hit.items()):
                 print('KNOWN-FINDING: property=%s obligation=%s %s' % (pid, oid, k['text']))
+            witness = None
+            if new and pid in WITNESS_PROPS and REPO == '/repo':
+                witness = find_witness(pid, tier)
+            degraded_only = []
             for oid, descs in sorted(new.items()):
-                path = write_replay(pid, oid, obl[oid], descs, vr) if not a.no_evidence else '-'
-                print('VIOLATION property=%s replay=%s obligation=%s no-failing-input-found' % (pid, path, oid))
+                in_degraded = (obl[oid]['file'], obl[oid]['fn']) in degraded
+                if in_degraded and not witness:
+                    degraded_only.append(oid)
+                    continue
+                path = write_replay(pid, oid, obl[oid], descs, vr, witness) if not a.no_evidence else '-'
+                print('VIOLATION property=%s replay=%s obligation=%s %s' % (pid, path, oid, ('witness: ' + witness[:160]) if witness else 'no-failing-input-found'))
                 for d in descs[:3]:
                     print('    %s at %s | %s' % (d['message'], (d.get('primary') or {}).get('where'), (d.get('clause') or {}).get('text', '')))
                 prc = 1
+            if ana['compile_error'] and prc == 0 and pid in WITNESS_PROPS and REPO == '/repo' and obl:
+                # the changed code is outside the verifier's reach (unsupported construct / does not compile with the
+                # contracts): no proof either way.  The bounded witness finder stands in; only a concrete failing run
+                # of the real code raises an alarm.
+                w = find_witness(pid, tier)
+                if w:
+                    rp = '-'
+                    if not a.no_evidence:
+                        os.makedirs(os.path.join(VERIF, 'replays'), exist_ok=True)
+                        rp = os.path.join(VERIF, 'replays', '%s-witness.json' % pid)
+                        with open(rp, 'w') as f:
+                            json.dump({'property': pid, 'failed_obligation': 'bounded stand-in: scenario sweep against the real Worker (the changed code could not be verified: %s)' % '; '.join(ana['inconclusive'][:2])[:400],
+                                       'obligation_clause': 'executable twin of the property oracle in replay/src/bin/scenarios.rs', 'function': 'Worker::send / Worker::receive', 'file': 'src/worker.rs, src/window.rs',
+                                       'verifier': 'bounded execution of the real code', 'counterexample': w,
+                                       'replay_cmd': 'cd /verif/replay && cargo run --offline -q --release --bin scenarios -- %s' % pid,
+                                       'verifier_output': [{'message': x} for x in ana['inconclusive'][:5]]}, f, indent=1)
+                    print('VIOLATION property=%s replay=%s stand-in=scenarios (changed code is outside the verifier\'s reach; concrete failing run: %s)' % (pid, rp, w[:200]))
+                    prc = 1
+            if degraded_only and prc == 0:
+                inconclusive = list(inconclusive) + ['function changed so much that its proof hints no longer apply (%s); obligations %s fail without them and the witness finder found no concrete failing run'
+                                                     % (', '.join(sorted('%s::%s' % k for k in degraded)), ', '.join(degraded_only))]
             if prc == 0 and (inconclusive or counts['assume('] or counts['admit(']):
                 for x in inconclusive[:10]:
                     print('INCONCLUSIVE: %s' % x)
                 if counts['assume('] or counts['admit(']:
                     print('INCONCLUSIVE: assume()/admit() found in the woven crate')
                 prc = 2
+            standins, cexs = run_standins(pid) if not a.no_evidence else ([], [])
+            for (x, text) in cexs:
+                os.makedirs(os.path.join(VERIF, 'replays'), exist_ok=True)
+                rpath = os.path.join(VERIF, 'replays', '%s-%s.json' % (pid, x['name']))
+                with open(rpath, 'w') as f:
+                    json.dump({'property': pid, 'failed_obligation': 'bounded stand-in %s for the assumed contract: %s' % (x['name'], x['assumed_contract']),
+                               'obligation_clause': x['assumed_contract'], 'function': x['name'], 'file': 'replay/src/bin/%s.rs' % x['bin'],
+                               'verifier': 'bounded execution of the real function (mechanically extracted) against an independent oracle',
+                               'counterexample': text, 'replay_cmd': 'cd /verif && python3 tools/extract.py && cd replay && cargo run --offline -q --release --bin %s' % x['bin'],
+                               'verifier_output': [{'message': text}]}, f, indent=1)
+                print('VIOLATION property=%s replay=%s stand-in=%s (concrete failing input found)' % (pid, rpath, x['name']))
+                print('    ' + text.replace('\n', '\n    '))
+                prc = 1
+            for d in standins:
+                if d.get('error') and prc == 0:
+                    print('INCONCLUSIVE: bounded stand-in %s: %s' % (d['name'], d['error']))
+                    prc = 2
             discharged = len(obl) - len(new) - len(known_hit) if prc != 2 else 0
             ev = {
                 'property_id': pid, 'tier': tier, 'seed': seed, 'level': 'proof',
@@ -573,6 +707,7 @@ def main():
                     'all_obligation_ids': sorted(obl),
                     'known_findings_hit': sorted(known_hit),
                     'auto_included_helper_items': sorted('%s:%s' % k for k in auto_items),
+                    'bounded_standins': standins,
                     'assumed_contract_clauses': [{'clause': k, 'function': v['fn'], 'text': v['text']} for k, v in sorted(uni.assumed.items()) if pid in v['props']],
                     'inconclusive': inconclusive[:10],
                     'verus_wall_s': round(vr['wall'], 2),
@@ -585,7 +720,7 @@ def main():
                     'partial correctness only for functions marked exec_allows_no_decreases_clause',
                 ],
                 'wall_s': round(time.time() - t0, 2),
-                'violations': len(new),
+                'violations': len(new) + len(cexs),
             }
             if not a.no_evidence:
                 os.makedirs(os.path.join(VERIF, 'evidence'), exist_ok=True)
